@@ -6,11 +6,12 @@
     [ValInv] is the quiescent value invariant of PassInv.v (it contains [BF]: no bind exists). *)
 From incr Require Import Base Heap HeapSpec EngineDefs Engine EngineRun EngineWf Spec EngineLemmas PassInv PassProofs.
 
-(** The pass: local consistency, and the quiescent invariant is re-established. *)
+(** The pass: local consistency, the structural invariant and the quiescent value invariant are
+    re-established, and every observer reads the from-scratch value ([Spec.eval]) of its node. *)
 Theorem C01_static_pass : forall s s',
   wfb s = true -> ValInv s -> stabilize [] false s = Ok (s', None) ->
-  consistent s' = true /\ ValInv s'.
-Proof. exact pass_consistent. Qed.
+  consistent s' = true /\ wfb s' = true /\ ValInv s' /\ observers_agree s' = true.
+Proof. exact pass_all. Qed.
 Print Assumptions C01_static_pass.
 
 (** The graph structure is constant during the pass (the frame lemma). *)
